@@ -431,7 +431,7 @@ func (t *tr) expr(e ast.Expr) ast.Expr {
 				switch pkg, name := fn.Pkg().Path(), fn.Name(); {
 				case pkg == "runtime" && name == "Gosched":
 					t.cnt["gosched"]++
-					return t.call("Yield")
+					return t.call("Gosched")
 				case pkg == "runtime" && name == "Goexit":
 					fatal("%s: runtime.Goexit has no counterpart on the simulated runtime", t.fset.Position(v.Pos()))
 				case pkg == "reflect" && (name == "Select" || name == "ChanOf" || name == "MakeChan" || name == "Send" || name == "Recv" || name == "TrySend" || name == "TryRecv" || name == "Close"):
@@ -708,6 +708,16 @@ func translate(importPath, srcDir string, lookup func(string) (io.ReadCloser, er
 				im.Path.Value = fmt.Sprintf("%q", *rtPath+sh)
 				t.cnt["import:"+p]++
 			}
+		}
+		if t.cnt["gosched"] > 0 {
+			// runtime.Gosched was the only use of the import in many files; keep the import used
+			name := "runtime"
+			for _, im := range f.Imports {
+				if strings.Trim(im.Path.Value, `"`) == "runtime" && im.Name != nil {
+					name = im.Name.Name
+				}
+			}
+			f.Decls = append(f.Decls, &ast.GenDecl{Tok: token.VAR, Specs: []ast.Spec{&ast.ValueSpec{Names: []*ast.Ident{ast.NewIdent("_")}, Values: []ast.Expr{&ast.SelectorExpr{X: ast.NewIdent(name), Sel: ast.NewIdent("NumCPU")}}}}})
 		}
 		if t.needRT {
 			spec := &ast.ImportSpec{Name: ast.NewIdent("__rt"), Path: &ast.BasicLit{Kind: token.STRING, Value: fmt.Sprintf("%q", *rtPath)}}
